@@ -197,6 +197,10 @@ def sweep_op(res, s, op, scratch, rng, tier):
                     continue
                 res.count(f"fault_kind.{ev.target}.{ev.kind}.{when}")
                 label = f"{errno.errorcode[err]}:{when}:{ev.target}.{ev.kind}@{k}/{len(events)}"
+                if len(res.samples) < 4 and k in (2, len(events) - 2):
+                    res.sample({"config": cfg_name(s.cfg), "op": op if "q" not in op else dict(op, q=qast.show(op["q"])),
+                                "rows_before": len(old), "fault": label, "exception_seen_by_caller": repr(out.exc)[:120],
+                                "io_calls_of_op": [e.sig() for e in events][:30]})
                 if not judge_after_fault(res, t, op, out, old, new, label, scratch):
                     return False
             finally:
@@ -334,8 +338,6 @@ def run(res, tier, seed, shard, nshards):
             for h in range(N_HIST[tier]):
                 rng = rng_for("C13", tier, seed, shard, ci, h)
                 run_history(res, cfg, scratch, rng, tier, budget)
-        if shard == 0:
-            res.sample({"fault": "ENOSPC:before:primary.flush@3/5 during insert", "expect": "OSError reaches caller; live index == rebuild from own storage; file decodes to old or new"})
     if not sysmon.available():
         res.notes.append("strace sub-tier skipped: " + sysmon.why_unavailable())
     res.require("proxy.faults_injected")
